@@ -610,7 +610,7 @@ def build_templates_unit(cfg, n, outdir):
                    + '\n'.join(blocks) + '\n}\n')
     # ecs_find! (FetchMode::Mut) with a dynamically typed key, shared and direct
     from . import worldgen
-    for fname, kty in (('tmpl_find_any', 'EntityAny'), ('tmpl_find_direct_any', 'EntityDirectAny')):
+    for fname, kty in (('tmpl_find_any', 'EntityAny'), ('tmpl_find_direct_any', 'EntityDirectAny'), ('tmpl_find_typed', 'Entity<ArchATag>')):
         body = tmpl.find_template(raw, worldgen.SCHEMA.name, TMPL_ARCHS, TMPL_PARAMS, 'decide_find', 'key', log)
         body = worldgen.rule_optmap_all(body, log)
         harness.append('fn %s(world: &mut WorldS, key: %s) -> Option<u8>\n{\n' % (fname, kty) + body + '\n}\n')
